@@ -541,6 +541,12 @@ func runSplit(res *Result, d *Driver, g *Rng, tier, prop string) {
 					}
 				}
 			}
+			// at the 255-part limit: a boundary pull-back decides between 255 parts and refusal
+			for _, total := range []int{255*per - 3, 255 * per, 255*per - (unitsOf(name, multi[0]) - 1)} {
+				for _, at := range []int{per - 1, 100*per - 1, 254*per - 1} {
+					sc.evalSplit(rq, buildText(name, g, total, at), 77)
+				}
+			}
 			// several multi-unit characters: all-multi texts and two consecutive boundaries hit
 			for _, cnt := range []int{per, per + 1, 2 * per, 200, 3 * per} {
 				var sb strings.Builder
